@@ -57,30 +57,7 @@ by the dense matrix. -/
 theorem denote_op_dotMat (e : OpExpr) (hreg : e.RegNonneg = true) (o : Op) (h : e.eval = .ok o)
     (x y : Mat) (hy : o.dotMat x = .ok y) : Mat.Eqv y (e.denote.mul x) := by
   obtain ⟨hw, he⟩ := OpExpr.denote_spec e hreg o h
-  obtain ⟨hr, hc⟩ := Op.dense_shape o hw
-  unfold Op.dotMat at hy
-  split at hy
-  · rename_i hx
-    cases hy
-    refine ⟨by simp [Mat.ofCols, ← hr, he.nRow], by simp [Mat.ofCols], fun i k => ?_⟩
-    unfold Mat.ofCols
-    rw [Mat.get_ofFn, Mat.get_mul]
-    by_cases hik : i < o.nRow ∧ k < x.nCol
-    · simp only [hik, and_self, if_true]
-      rw [tab_getD, if_pos hik.2]
-      rw [Op.matvec_eq_dense o _ hw (by simp [Mat.col, hx]), Mat.Eqv.mulVec he, Mat.vget_mulVec]
-      apply sumTo_congr; intro j hj
-      unfold Mat.col
-      rw [vget_tab]
-      have : j < x.nRow := by rw [hx, ← hc, he.nCol]; exact hj
-      simp [this]
-    · simp only [hik, if_false]
-      symm; apply sumTo_eq_zero; intro j _
-      by_cases hi : i < o.nRow
-      · have hk : x.nCol ≤ k := Nat.le_of_not_lt (fun c => hik ⟨hi, c⟩)
-        rw [Mat.get_of_col_ge j hk]; ring
-      · rw [Mat.get_of_row_ge j (by rw [← he.nRow, hr]; exact Nat.le_of_not_lt hi)]; ring
-  · cases hy
+  exact (Op.dotMat_eqv hw hy).2.trans (Mat.Eqv.mul he (Mat.Eqv.refl x))
 
 /-- **the 2-d branches of `_matvec`** (SparseLR, Normalizer and its transposed product, CoNeighbor) multiply
 by the dense matrix as well -/
@@ -177,6 +154,18 @@ theorem coneighbor_matvec (c : CoNeighbor) (v : Vec) : c.matvec v = c.dense.mulV
 theorem coneighbor_denote (a : Mat) (nz : Bool) (c : CoNeighbor) (h : CoNeighbor.init a nz = .ok c) :
     Mat.Eqv c.dense (OpExpr.coneighbor a nz).denote := CoNeighbor.init_dense h
 
+/-! ## safe_sparse_dot -/
+
+/-- **safe_sparse_dot**: for every combination of dense array / csr matrix / operator that the function accepts,
+the result (a matrix, or an operator through `left_sparse_dot` / `right_sparse_dot`) denotes the product
+of the two operands -/
+theorem safe_sparse_dot_denotes (a b : Operand) (ha : a.WF) (hb : b.WF) (r : DotResult)
+    (h : safeSparseDot a b = .ok r) : r.Denotes (a.dense.mul b.dense) :=
+  safeSparseDot_denotes a b ha hb r h
+
+example : (safeSparseDot (.ndarray ⟨1, 2, [[1, 2]]⟩) (.csr ⟨2, 1, [[3], [4]]⟩)).toOption.map
+    (fun r => match r with | .mat m => some m | _ => none) = some (some ⟨1, 1, [[11]]⟩) := by decide +kernel
+
 /-! ## ★ horner_eq_powersum, polynome_transpose -/
 
 /-- **horner_eq_powersum.** The Ruffini–Horner loop of `Polynome._matvec` computes `(Σ_k c_k M^k) v`. -/
@@ -214,6 +203,12 @@ theorem pseudo_inverse (w : Rat) : (w = 0 → pinv w = 0) ∧ (w ≠ 0 → pinv 
   rw [one_div, inv_mul_cancel₀ h]
 
 theorem pinvVec_spec (w : Vec) (i : Nat) : vget (pinvVec w) i = pinv (vget w i) := vget_pinvVec w i
+
+/-- the Boolean specifications that the driver evaluates on the implementation's outputs (`spec` lines) are satisfied
+by the model's outputs, for any tolerance `≥ 0` -/
+theorem spec_lines_hold_of_model (tol : Rat) (ht : 0 ≤ tol) (w : Vec) (a : Mat) :
+    PinvSpec tol w (pinvVec w) = true ∧ NormalizeSpec1 tol a (normalize1 a) = true :=
+  ⟨pinvSpec_model tol ht w, normalizeSpec1_model tol ht a⟩
 
 /-- **normalize_rows**: `normalize(matrix, p=1)` divides every row by its 1-norm — the rows of the result have
 1-norm 1, the null rows stay null, and each row times the norm of the input row gives the input row back -/
